@@ -13,7 +13,7 @@ RULE = (
     "case = export with 0..6 sessions (both layouts: Contests directly or under Cards), 0..3 cards x 0..3 contests per record, "
     "0..5 marks per contest with repeated candidates, ranks 0..4 and IsVote flags, optional Modified block covering a subset "
     "of contests, session key order shuffled (so Modified may precede Original), plain or obfuscated record ids, counting "
-    "groups 1..3; options use_current / enforce_rules / include_groups / pool_groups generated. Oracle: reference reader; the "
+    "groups 0..3 (a group number is a number like any other, 0 included); options use_current / enforce_rules / include_groups / pool_groups generated. Oracle: reference reader; the "
     "same export with marks permuted, keys permuted and Original/Modified swapped must give the same result. Non-trivial = a "
     "candidate with >=2 counted marks of different rank, or an uncounted mark, or a Modified block, or an excluded group. "
     "distinct = canonical JSON."
@@ -60,7 +60,7 @@ def _session(draw, layout, idx):
     tab, batch = draw(st.integers(1, 3)), draw(st.integers(1, 3))
     obf = draw(st.integers(0, 4)) == 0
     rec = (idx + 1) * draw(st.sampled_from([1, 1, 1, 10, 100]))   # record numbers such as 10, 20, 300 occur too
-    s = {"TabulatorId": tab, "BatchId": batch, "RecordId": "X" if obf else rec, "CountingGroupId": draw(st.integers(1, 3)),
+    s = {"TabulatorId": tab, "BatchId": batch, "RecordId": "X" if obf else rec, "CountingGroupId": draw(st.integers(0, 3)),
          "ImageMask": f"D:\\\\NAS\\\\Results\\\\Tabulator{tab:05d}\\\\Batch{batch:03d}\\\\Images\\\\{tab:05d}_{batch:05d}_{rec:06d}*.*",
          "SessionType": "ScannedVote"}
     cids = draw(st.lists(st.integers(1, 4), max_size=3, unique=True))
@@ -79,7 +79,7 @@ def strategy(shard):
         n = draw(st.integers(0, 6))
         sessions = [draw(_session(shard["layout"], i)) for i in range(n)]
         opts = {"use_current": draw(st.sampled_from([True, True, False])), "enforce_rules": draw(st.sampled_from([True, True, False])),
-                "include_groups": sorted(draw(st.sets(st.integers(1, 3), max_size=2))), "pool_groups": sorted(draw(st.sets(st.integers(1, 3), max_size=2)))}
+                "include_groups": sorted(draw(st.sets(st.integers(0, 3), max_size=2))), "pool_groups": sorted(draw(st.sets(st.integers(0, 3), max_size=2)))}
         c = {"sessions": sessions, "opts": opts, "directory": bool(shard.get("directory"))}
         if c["directory"]:
             c["split"] = draw(st.integers(0, n))
